@@ -80,6 +80,27 @@ def one(ctx, rng, P, use_strace):
             B[p] = rdata(rng, P["maxsize"]) + b"!"
             if len(B[p]) == len(A[p]):
                 B[p] += b"!"
+    if rng.random() < 0.3:
+        # sibling names that continue a directory name with a byte below / above '/' (0x2F): orders by raw bytes and by path
+        # components disagree on them ("data/x" vs "data-old/x", "data.old", "data0")
+        stem = rng.choice(["data", "d", rname(rng)])
+        top = rng.choice(["", "game/", "sqpack/ffxiv/"])
+        for sib in rng.sample([stem, stem + "-old", stem + ".old", stem + "0", stem + " ", stem + "_", stem + "+x", stem.upper()], rng.randint(2, 5)):
+            for leaf in rng.sample(["x", "a.bin", "z/deep.dat", stem], rng.randint(1, 2)):
+                p = top + sib + "/" + leaf
+                if any(u == p or u.startswith(p + "/") or p.startswith(u + "/") for u in used):
+                    continue
+                used.add(p)
+                k = rng.choice(["both-same", "both-changed-other-size", "only-A", "only-B"])
+                cls[p] = k
+                d = rdata(rng, 3000)
+                if k != "only-B":
+                    A[p] = d
+                if k == "both-same":
+                    B[p] = d
+                elif k in ("both-changed-other-size", "only-B"):
+                    B[p] = rdata(rng, 3000) + b"!!"
+        ctx.stats.classes["tree:sibling-names-around-slash"] += 1
     base = ctx.path("pair")
     shutil.rmtree(base, ignore_errors=True)
     ra, rb, rw = (os.path.join(base, x) for x in ("A", "B", "W"))
